@@ -573,6 +573,12 @@ func (ex *symExec) run(st *symState) {
 					return
 				}
 			default:
+				// a negated term is recorded as the term with the polarity flipped
+				neg := false
+				for strings.HasPrefix(string(b), "!") {
+					b = b[1:]
+					neg = !neg
+				}
 				// contradiction / redundancy with an earlier decision on the same term
 				decided := 0
 				for _, c := range st.conds {
@@ -589,20 +595,25 @@ func (ex *symExec) run(st *symState) {
 					sc = *meta
 					sc.text = string(b)
 				}
+				// successor taken when the (un-negated) term is true / false
+				tSucc, fSucc := 0, 1
+				if neg {
+					tSucc, fSucc = 1, 0
+				}
 				if decided >= 0 {
 					ns := st.clone()
 					nc := sc
 					nc.pol = true
 					ns.conds = append(ns.conds, nc)
 					nf := ns.stack[len(ns.stack)-1]
-					if ex.enter(ns, nf, nf.blk.Succs[0]) {
+					if ex.enter(ns, nf, nf.blk.Succs[tSucc]) {
 						ex.run(ns)
 					}
 				}
 				if decided <= 0 {
 					sc.pol = false
 					st.conds = append(st.conds, sc)
-					if !ex.enter(st, f, f.blk.Succs[1]) {
+					if !ex.enter(st, f, f.blk.Succs[fSucc]) {
 						return
 					}
 					continue
@@ -751,6 +762,26 @@ func (ex *symExec) binop(f *symFrame, x *ssa.BinOp) interface{} {
 			if bb, ok := b.(symBool); ok && (x.Op == token.EQL || x.Op == token.NEQ) {
 				if (ab == "true" || ab == "false") && (bb == "true" || bb == "false") {
 					return symBool(fmt.Sprint((ab == bb) == (x.Op == token.EQL)))
+				}
+			}
+		}
+		// string(B[lo:hi]) == string(M): the marker test written as a
+		// string comparison
+		if ab, ok := a.(symBytes); ok && (x.Op == token.EQL || x.Op == token.NEQ) {
+			if bb, ok := b.(symBytes); ok && len(ab) == 1 && len(bb) == 1 {
+				win, mk := ab[0], bb[0]
+				if mk != "START" && mk != "END" {
+					win, mk = bb[0], ab[0]
+				}
+				if mk == "START" || mk == "END" {
+					if lo, hi, ok := parseWindow(win); ok {
+						txt := fmt.Sprintf("Equal(%v,%v)", symBytes{win}, symBytes{mk})
+						f.env[condMeta{x}] = &symCond{equalM: mk, lo: lo, hi: hi}
+						if x.Op == token.NEQ {
+							return symBool("!" + txt)
+						}
+						return symBool(txt)
+					}
 				}
 			}
 		}
